@@ -34,6 +34,7 @@ mut("rev-d11-header-hang", "C13", "internal/client/stream.go", "\t\t\t\trErr = s
 mut("rev-d12-noheader-stats", "C13", "internal/client/multiplexer.go", "internal.ToMetadata(resp.GetHeader().GetHeaders())", "internal.ToMetadata(resp.GetHeader().Headers)", "nil header dereference")
 mut("rev-d13-open-leak", "C14", "client.go", "\t\tteardown()\n\t\treturn nil, err\n", "\t\treturn nil, err\n", "failed open not torn down")
 mut("rev-d20-halfclose", "C11", "server.go", "\t\t} else if handler.halfClosed {", "\t\t} else if false && handler.halfClosed {", "envelopes after half-close queued again")
+mut("rev-respchan-closed-ctx", "C07", "internal/client/multiplexer.go", "\t\t\t\t\tif err := ctx.Err(); err != nil {\n\t\t\t\t\t\treturn nil, err\n\t\t\t\t\t}\n\t\t\t\t\tif err := rm.readErrorIfDone(); err != nil {", "\t\t\t\t\tif err := rm.readErrorIfDone(); err != nil {", "closed response channel no longer yields the context's error")
 mut("rev-trailer-after-deadline", "C06", "server.go", "\t\tif r.GetTrailer() != nil {\n\t\t\t// The trailer carries", "\t\tif false && r.GetTrailer() != nil {\n\t\t\t// The trailer carries", "trailer hand-off races with the done stream context again")
 mut("rev-stats-end-eof", "C20", "internal/util.go", "\t\tif appErr != nil {\n\t\t\tend.Error = appErr", "\t\tif appErr != nil && appErr.Error() != \"EOF\" && !strings.HasSuffix(appErr.Error(), \": EOF\") {\n\t\t\tend.Error = appErr", "End.Error nil again for errors that are or wrap io.EOF")
 mut("rev-teardown-order", "C13", "internal/client/stream.go", "\t\tteardown()\n\n\t\tif sendRst {", "\t\tif sendRst {", "teardown no longer unregisters first (and never unregisters)", suite=False)
